@@ -52,6 +52,11 @@ CHECKS = {
          "DESIGN.md §7 C04",
          "go/types and go/constant are the oracle; both sides compute with go/constant, so agreement in its last bits is by construction. unsafe sizes follow go/types' gc sizes for the host.",
          "property-based testing: grammar-based constant expressions, per-subexpression differential against go/types/go/constant"),
+ "C11": ("exploration",
+         "One extension construct per case, driven through the public CodeBuilder API inside a function whose package-level context is ordinary Go: all 49 registered builtin-type methods on variable / literal / named / call-result / chained receivers with variable and constant arguments in assignment, definition, if / for / switch and argument contexts; member chains of 1-3 steps on string-keyed maps, named maps (incl. a method that shadows a key), struct fields, call results, pointers to maps and any values, read in nine statement contexts (incl. conditions with and without a user init statement, loop bodies, closures, range and type-switch headers), assigned through, and in the comma-ok form; bool-to-number casts of variables, named bools, calls, comparisons and constants to every basic number type; optional parameters (0-2 positional, 1-3 optional of 18 types, variadic tail, methods, another package's functions marked by name) with every argument count incl. too few / too many; lower-case aliases and auto-properties on value, pointer, embedded and interface receivers incl. exact-name shadowing; enumerators of every documented shape (Next with 1 or 2 values, pointer receivers, legacy name, iterator functions with 0-2 values, named function types) with every loop-variable form and break / continue / nested bodies; inline closure calls with 0-2 parameters, variadic tails (packed and spread), 0-2 results, early return, side-effecting arguments; big integer / rational literals around the int64, uint64 and 128-bit boundaries. Oracle: the output must type-check under go/types and its canonical typed dump (locals and generated labels alpha-renamed) must equal the dump of a reference lowering written in the harness as Go source from the documentation; big literals are evaluated from the emitted expression with math/big and must equal the written value exactly. Constructs the documentation does not define (marked in the plan) must be rejected or yield Go that type-checks.",
+         "DESIGN.md §7 C11",
+         "The reference lowerings are the documented desugarings (doc comments, repository examples); where two shapes have the same meaning (assertion in the init clause or before the statement; result variables assigned together or one by one) each is accepted. go/types is the oracle for type-correctness. Constant boolean folding is left to C02.",
+         "property-based testing: per-feature construct generators, differential against independently written reference lowerings (canonical typed dump) and a math/big evaluator"),
  "C12": ("exploration",
          "Round-trip and canonical-form testing of the printer through a verif-tagged hook: position-less syntax trees from a syntax grammar (all operator precedence/associativity combinations, unary-after-unary/binary chains, channel- and function-typed conversions, literals, every statement and declaration kind, type parameters, tags), from G-valid programs, from the builder's own trees (Package.ASTFile vs WriteTo) and from every parsable file under GOROOT/src (thorough: all ~4900, quick: 1/20 chosen by the seed), with all parentheses around operator operands removed and 0-3 statement comment groups. Oracles: parse(print(t)) structurally equals t; go/format.Source(text) == text; each comment printed once, on the line directly before its statement.",
          "DESIGN.md §7 C12",
